@@ -75,6 +75,7 @@ let handle toks =
     let common = fork_common toy_gen beh (z_of_int 1000) (z_of_int 1) (nat_of_int 2) cs (nat_of_int (kk + 3)) (nat_of_int kk) in
     let line c = "OK forks=" ^ n ^ " k=" ^ k ^ " wellformed=1 common=" ^ c in
     line (bool01 common) ^ " ## " ^ line "0"
+  | ["reset"] -> st := None; "OK -"
   | ["procs"; k; n] ->
     (* k processes started within one second (entropy values 1..k), n ids each *)
     let es = OLst.init (oint_of_string k) (fun i -> z_of_int (i + 1)) in
